@@ -289,6 +289,18 @@ func valTok(quoted string) string {
 
 func simpleDefaults(s Schema) bool {
 	for _, t := range s.Tables {
+		for _, i := range t.Idx { // the engine model checks UNIQUE over the rows for plain column indexes only
+			if i.Unique {
+				if i.Pred != nil {
+					return false
+				}
+				for _, p := range i.Parts {
+					if p.Col == "" || (t.col(p.Col) != nil && t.col(p.Col).Gen != nil) {
+						return false
+					}
+				}
+			}
+		}
 		for _, c := range t.Cols {
 			if c.Def == nil {
 				continue
@@ -326,7 +338,7 @@ func (c *ctx) engineCase(a, b Schema, desc string, o engineOpts) {
 	}
 	id := c.id(class)
 	bg := context.Background()
-	trace := os.Getenv("VERIF_TRACE") == id
+	trace := os.Getenv("VERIF_TRACE") == id || (os.Getenv("VERIF_TRACE_DESC") != "" && strings.Contains(desc, os.Getenv("VERIF_TRACE_DESC")))
 	if trace {
 		fmt.Fprintf(os.Stderr, "TRACE %s [%s] file=%v fk=%v viaAtlas=%v\n", id, desc, o.file, o.fk, o.viaAtlas)
 		for _, st := range rawSchema(a) {
@@ -427,6 +439,7 @@ func (c *ctx) engineCase(a, b Schema, desc string, o engineOpts) {
 		return
 	}
 	if trace {
+		fmt.Fprintln(os.Stderr, "  DIFF:", showSchemaChanges(cs, nil))
 		if p, err := l.drv.PlanChanges(bg, "trace", cs); err == nil {
 			for _, ch := range p.Changes {
 				fmt.Fprintln(os.Stderr, "  PLAN:", ch.Cmd)
@@ -458,6 +471,7 @@ func (c *ctx) engineCase(a, b Schema, desc string, o engineOpts) {
 		return
 	}
 	add("I1 " + tokObs(after))
+	afterProj := stateProj(after) // before SchemaDiff: diff.Normalize rewrites the symbols of the inspected graph in place
 	if trace {
 		fmt.Fprint(os.Stderr, "  AFTER:\n"+readable(after))
 	}
@@ -467,6 +481,11 @@ func (c *ctx) engineCase(a, b Schema, desc string, o engineOpts) {
 	add("FK1 " + strconv.Itoa(fkv))
 	cs2, derr2, _ := diffReal(after, build("sqlite", b))
 	add("D2 " + showSchemaChanges(cs2, derr2))
+	if trace {
+		fmt.Fprintln(os.Stderr, "  APPLY ERR:", aerr, " D2:", showSchemaChanges(cs2, derr2))
+		fs := freshState(b)
+		fmt.Fprintln(os.Stderr, "  STATE DIFF:", firstDiff(afterProj, fs))
+	}
 	if o.updown {
 		// down: the reverse statements of the changes, last change first (what the formatters write into a down file)
 		switch {
@@ -513,6 +532,15 @@ func (c *ctx) engineCase(a, b Schema, desc string, o engineOpts) {
 		c.w.NonTrivial(showSchemaChanges(cs, nil))
 	}
 	switch {
+	case aerr != nil && len(o.rows) > 0:
+		// a populated database: rows may legitimately make a statement fail; any other failure is a violation
+		c.w.Count("engine.apply-error-populated")
+		if os.Getenv("VERIF_WHY") != "" {
+			fmt.Fprintf(os.Stderr, "WHY apply-pop %s: %v | valid=%v [%s]\n", id, aerr, validSQLite(b), desc)
+		}
+		if !rowError(aerr) && validSQLite(b) == nil {
+			c.w.Violation(id, "apply-failed", ic+fmt.Sprintf("applying the plan to a populated database fails with an error that is not a constraint violation by the rows, although the desired schema is valid SQLite: %v ; diff=%s [%s]", aerr, showSchemaChanges(cs, nil), desc))
+		}
 	case aerr != nil:
 		c.w.Count("engine.apply-error")
 		if os.Getenv("VERIF_WHY") != "" {
@@ -533,7 +561,7 @@ func (c *ctx) engineCase(a, b Schema, desc string, o engineOpts) {
 		}
 		// independent of the differ: the state itself
 		if fs := freshState(b); fs != nil {
-			if df := firstDiff(stateProj(after), fs); df != "" {
+			if df := firstDiff(afterProj, fs); df != "" {
 				c.w.Violation(id, "state-differs", ic+fmt.Sprintf("apply succeeded and the second diff is empty, but the inspected database differs from the desired schema created from scratch: %s ; first diff=%s [%s]", df, showSchemaChanges(cs, nil), desc))
 			}
 		}
@@ -571,6 +599,19 @@ func runEngine(c *ctx) {
 
 // ------------------------------------------------------------------ oracle stage (no model)
 
+// rowError: the SQLite error is a constraint violation by the stored rows (error enum by message)
+func rowError(err error) bool {
+	m := err.Error()
+	for _, k := range []string{"NOT NULL constraint failed", "UNIQUE constraint failed", "FOREIGN KEY constraint failed",
+		"CHECK constraint failed", "Cannot add a NOT NULL column with default value NULL", "foreign key mismatch", "datatype mismatch",
+		"cannot store", "type mismatch on DEFAULT"} {
+		if strings.Contains(m, k) {
+			return true
+		}
+	}
+	return false
+}
+
 func runOracle(c *ctx) {
 	c.w.Rule = "a case is non-trivial when the real differ reports a non-empty change list between the inspected current database and the desired schema; distinct by that list"
 	n := 1300
@@ -583,7 +624,42 @@ func runOracle(c *ctx) {
 		if !o.viaAtlas && c.r.Chance(1, 4) && c.g.addUniques(&a, &b) {
 			d += "+uniques"
 		}
+		if c.r.Chance(1, 3) && d != "unrelated" { // populated (no model here, so any default is fine)
+			for _, t := range a.Tables {
+				o.rows = append(o.rows, genRows(c.g, t)...)
+			}
+			if len(o.rows) > 0 {
+				d += "+rows"
+			}
+		}
 		c.engineCase(a, b, d, o)
+	}
+	// populated tables x a single edit of the ALTER path or of its border (what alterable() must send to the rebuild)
+	border := map[string]bool{"add-col-nonconst-default": true, "add-col-null": true, "add-col-notnull-default": true,
+		"add-col-generated": true, "add-index": true, "drop-index": true, "add-col-indexed": true}
+	nb := 120
+	if c.thorough {
+		nb = 3000
+	}
+	for i := 0; i < nb; i++ {
+		a := c.g.schema()
+		b := a.clone()
+		ti := c.r.Intn(len(b.Tables))
+		var kind string
+		for try := 0; try < 20 && kind == ""; try++ {
+			e := edits[c.r.Intn(len(edits))]
+			if border[e.kind] && e.f(c.g, &b, &b.Tables[ti]) {
+				kind = e.kind
+			}
+		}
+		if kind == "" || classify(a, b) != "none" {
+			continue
+		}
+		o := engineOpts{file: i%3 == 0, fk: i%2 == 0}
+		for _, t := range a.Tables {
+			o.rows = append(o.rows, genRows(c.g, t)...)
+		}
+		c.engineCase(a, b, "border:"+kind+"+rows", o)
 	}
 	// one stream per open known finding: the witnesses must still fail (they print KNOWN-FINDING), and
 	// any other violation on them still raises
